@@ -1,7 +1,17 @@
 /-
   C05 — Surface CPR global decode selects the solution nearest the receiver.
+
+  `e0 = Spec.cprEncode nl 90 0 lat0 lon0` (even), `e1 = Spec.cprEncode nl 90 1 lat1 lon1` (odd):
+  surface encodings (base 90) of two positions; `surfacePositionCore nl (yz0, xz0) (yz1, xz1)`
+  takes the first message as the even and the second as the odd frame, as coded.  `nl` arbitrary.
+  The carried latitude must satisfy `-90 ≤ rlat < 90` (a carried latitude of exactly 90° is
+  decoded as 0° or −90°: known finding C05-north-pole).
+  `CPR.wrapPM x = (x + 180) % 360 − 180` and `CPR.circDist r l = |(r − l + 180) % 360 − 180|`
+  are the code's normalisation to `[-180, 180)` and its circular distance.
+  Proofs: `PyModeS/Proofs/CPR/Global.lean`, `Surface.lean`.
 -/
 import PyModeS.Model.Adsb
+import PyModeS.Proofs.CPR.Surface
 namespace PyModeS.C05
 
 /-- without a receiver location a surface pair is refused with RuntimeError -/
@@ -10,5 +20,142 @@ theorem surface_requires_ref (b0 b1 : Bits) (tc0 tc1 : Nat) (h0 : tcB b0 = some 
     position b0 b1 t0 t1 none = .rte := by
   unfold position positionRoute
   simp [h0, h1, s0, s1]
+
+/-- The decoder in terms of its intermediate values: `CPR.latEvenRaw 90 …` / `CPR.latOddRaw 90 …`
+    are the northern candidates `lat_even_n` / `lat_odd_n`, `CPR.hemi latRef x` the choice between
+    `x` and `x − 90`, `CPR.sLatEven`/`sLatOdd` the chosen latitudes, `CPR.lonRaw 90 n i …` the
+    longitude in `[0, 90)` and `CPR.pickLon lonRef lon` the choice among `lon + 90k`. -/
+theorem decode_unfold (nl : ℚ → ℕ) (e o : ℕ × ℕ) (t0 t1 latRef lonRef : ℚ) :
+    surfacePositionCore nl e o t0 t1 latRef lonRef =
+      if nl (CPR.sLatEven e o latRef) ≠ nl (CPR.sLatOdd e o latRef) then none
+      else some (
+        if t0 > t1 then
+          (CPR.sLatEven e o latRef,
+            CPR.pickLon lonRef (CPR.lonRaw 90 (nl (CPR.sLatEven e o latRef)) 0 e.2 o.2 e.2))
+        else
+          (CPR.sLatOdd e o latRef,
+            CPR.pickLon lonRef (CPR.lonRaw 90 (nl (CPR.sLatOdd e o latRef)) 1 e.2 o.2 o.2))) :=
+  CPR.surface_eq nl e o t0 t1 latRef lonRef
+
+/-- the code's normalisation `(x + 180) % 360 − 180`: congruent to `x` modulo 360, in `[-180, 180)` -/
+theorem wrapPM_spec (x : ℚ) :
+    CPR.wrapPM x = x - 360 * ((⌊(x + 180) / 360⌋ : ℤ) : ℚ) ∧ -180 ≤ CPR.wrapPM x ∧ CPR.wrapPM x < 180 :=
+  CPR.wrapPM_spec x
+
+/-- **surface_lat.** If the carried latitudes differ by less than 0.75/59° the northern candidates
+    are the carried latitudes themselves (northern hemisphere) or the carried latitudes plus 90
+    (southern): the true latitude is `x` or `x − 90`. -/
+theorem surface_lat (nl : ℚ → ℕ) (lat0 lon0 lat1 lon1 : ℚ) (e0 e1 : Spec.Enc)
+    (he0 : e0 = Spec.cprEncode nl 90 0 lat0 lon0) (he1 : e1 = Spec.cprEncode nl 90 1 lat1 lon1)
+    (hr0 : -90 ≤ e0.rlat ∧ e0.rlat < 90) (hr1 : -90 ≤ e1.rlat ∧ e1.rlat < 90)
+    (hclose : |e0.rlat - e1.rlat| < 3 / 4 / 59) :
+    CPR.latEvenRaw 90 e0.yz e1.yz = (if 0 ≤ e0.rlat then e0.rlat else e0.rlat + 90) ∧
+    CPR.latOddRaw 90 e0.yz e1.yz = (if 0 ≤ e1.rlat then e1.rlat else e1.rlat + 90) := by
+  subst he0 he1
+  exact CPR.glat_surface nl lat0 lon0 lat1 lon1 hr0 hr1 (by norm_num at hclose ⊢; exact hclose)
+
+/-- **hemisphere_choice.** With a reference latitude within 45° of the carried latitudes the
+    chosen `lat_even` / `lat_odd` are the carried latitudes. -/
+theorem hemisphere_choice (nl : ℚ → ℕ) (lat0 lon0 lat1 lon1 latRef : ℚ) (e0 e1 : Spec.Enc)
+    (he0 : e0 = Spec.cprEncode nl 90 0 lat0 lon0) (he1 : e1 = Spec.cprEncode nl 90 1 lat1 lon1)
+    (hr0 : -90 ≤ e0.rlat ∧ e0.rlat < 90) (hr1 : -90 ≤ e1.rlat ∧ e1.rlat < 90)
+    (hclose : |e0.rlat - e1.rlat| < 3 / 4 / 59)
+    (href0 : |latRef - e0.rlat| < 45) (href1 : |latRef - e1.rlat| < 45) :
+    CPR.sLatEven (e0.yz, e0.xz) (e1.yz, e1.xz) latRef = e0.rlat ∧
+    CPR.sLatOdd (e0.yz, e0.xz) (e1.yz, e1.xz) latRef = e1.rlat := by
+  obtain ⟨hE, hO⟩ := surface_lat nl lat0 lon0 lat1 lon1 e0 e1 he0 he1 hr0 hr1 hclose
+  unfold CPR.sLatEven CPR.sLatOdd
+  simp only
+  rw [hE, hO]
+  exact ⟨CPR.hemi_pick latRef _ href0, CPR.hemi_pick latRef _ href1⟩
+
+/-- **lon_quadrant_choice** (i): the returned longitude is one of the four candidates
+    `lon + 90k` normalised to `[-180, 180)`, and no candidate is closer to `lonRef` in circular
+    distance. -/
+theorem lon_quadrant_choice (lonRef lon : ℚ) :
+    ∃ k, k < 4 ∧ CPR.pickLon lonRef lon = (CPR.lonCands lon).getD k 0 ∧
+      ∀ j, j < 4 → CPR.circDist lonRef ((CPR.lonCands lon).getD k 0)
+        ≤ CPR.circDist lonRef ((CPR.lonCands lon).getD j 0) :=
+  CPR.pickLon_closest lonRef lon
+
+theorem lonCands_eq (lon : ℚ) :
+    CPR.lonCands lon = [CPR.wrapPM lon, CPR.wrapPM (lon + 90), CPR.wrapPM (lon + 180),
+      CPR.wrapPM (lon + 270)] := rfl
+
+/-- **lon_quadrant_choice** (ii): if `lon` is the true longitude `y` up to a multiple of 90 and the
+    reference is within 45° (circular distance) of `y`, the true longitude is picked (normalised). -/
+theorem lon_quadrant_true (lonRef y lon : ℚ) (z : ℤ) (hlon : lon = y + 90 * z)
+    (hd : CPR.circDist lonRef y < 45) : CPR.pickLon lonRef lon = CPR.wrapPM y :=
+  CPR.pickLon_true lonRef y lon z hlon hd
+
+/-- **surface_decode.** Carried latitudes closer than 0.75/59°, reference latitude within 45° of
+    both, same `n = nl rlat`, carried longitudes (when `n ≥ 2`) closer than `45/(n(n−1))` modulo
+    90, and reference longitude within 45° (circular) of the newer frame's carried longitude:
+    the decoder returns the newer frame's carried position, longitude normalised to `[-180, 180)`. -/
+theorem surface_decode (nl : ℚ → ℕ) (lat0 lon0 lat1 lon1 t0 t1 latRef lonRef : ℚ) (e0 e1 : Spec.Enc)
+    (he0 : e0 = Spec.cprEncode nl 90 0 lat0 lon0) (he1 : e1 = Spec.cprEncode nl 90 1 lat1 lon1)
+    (hr0 : -90 ≤ e0.rlat ∧ e0.rlat < 90) (hr1 : -90 ≤ e1.rlat ∧ e1.rlat < 90)
+    (hclose : |e0.rlat - e1.rlat| < 3 / 4 / 59)
+    (href0 : |latRef - e0.rlat| < 45) (href1 : |latRef - e1.rlat| < 45)
+    (hnl : nl e0.rlat = nl e1.rlat)
+    (hlon : 2 ≤ nl e0.rlat → ∃ s : ℤ,
+      |e0.rlon - e1.rlon - 90 * s| < 45 / ((nl e0.rlat : ℚ) * ((nl e0.rlat : ℚ) - 1)))
+    (hlonRef : CPR.circDist lonRef (if t0 > t1 then e0.rlon else e1.rlon) < 45) :
+    surfacePositionCore nl (e0.yz, e0.xz) (e1.yz, e1.xz) t0 t1 latRef lonRef
+      = some (if t0 > t1 then e0.rlat else e1.rlat,
+              CPR.wrapPM (if t0 > t1 then e0.rlon else e1.rlon)) := by
+  obtain ⟨hE, hO⟩ := hemisphere_choice nl lat0 lon0 lat1 lon1 latRef e0 e1 he0 he1 hr0 hr1 hclose
+    href0 href1
+  rw [decode_unfold, hE, hO, if_neg (not_not.mpr hnl)]
+  subst he0 he1
+  have hlon' : 2 ≤ nl (Spec.cprEncode nl 90 0 lat0 lon0).rlat → ∃ s : ℤ,
+      |(Spec.cprEncode nl 90 0 lat0 lon0).rlon - (Spec.cprEncode nl 90 1 lat1 lon1).rlon - 90 * s|
+        < 90 / 2 / ((nl (Spec.cprEncode nl 90 0 lat0 lon0).rlat : ℚ)
+            * ((nl (Spec.cprEncode nl 90 0 lat0 lon0).rlat : ℚ) - 1)) := by
+    intro h2
+    obtain ⟨s, hs⟩ := hlon h2
+    exact ⟨s, by norm_num at hs ⊢; exact hs⟩
+  obtain ⟨⟨z0, hz0⟩, ⟨z1, hz1⟩⟩ := CPR.glon_raw nl 90 (by norm_num) lat0 lon0 lat1 lon1
+    (nl (Spec.cprEncode nl 90 0 lat0 lon0).rlat) rfl hnl.symm hlon'
+  by_cases ht : t0 > t1
+  · simp only [ht, if_true] at hlonRef ⊢
+    rw [lon_quadrant_true lonRef _ _ z0 hz0 hlonRef]
+  · simp only [ht, if_false] at hlonRef ⊢
+    rw [← hnl, lon_quadrant_true lonRef _ _ z1 hz1 hlonRef]
+
+/-! ### the hypotheses are satisfiable (`nl = cprNL`) -/
+
+/-- Schiphol: (52.32061, 4.73473) / (52.32070, 4.73480), receiver at (51.99, 4.375) -/
+example :
+    let e0 := Spec.cprEncode cprNL 90 0 (5232061 / 100000) (473473 / 100000)
+    let e1 := Spec.cprEncode cprNL 90 1 (5232070 / 100000) (473480 / 100000)
+    (e0.yz, e0.xz, e1.yz, e1.xz) = (115397, 117164, 39207, 110272) ∧
+    (-90 ≤ e0.rlat ∧ e0.rlat < 90) ∧ (-90 ≤ e1.rlat ∧ e1.rlat < 90) ∧
+    |e0.rlat - e1.rlat| < 3 / 4 / 59 ∧
+    |(5199 / 100 : ℚ) - e0.rlat| < 45 ∧ |(5199 / 100 : ℚ) - e1.rlat| < 45 ∧
+    cprNL e0.rlat = 36 ∧ cprNL e1.rlat = 36 ∧
+    |e0.rlon - e1.rlon - 90 * (0 : ℤ)| < 45 / ((cprNL e0.rlat : ℚ) * ((cprNL e0.rlat : ℚ) - 1)) ∧
+    CPR.circDist (4375 / 1000) e0.rlon < 45 ∧ CPR.circDist (4375 / 1000) e1.rlon < 45 ∧
+    surfacePositionCore cprNL (e0.yz, e0.xz) (e1.yz, e1.xz) 1 0 (5199 / 100) (4375 / 1000)
+      = some (e0.rlat, e0.rlon) ∧
+    surfacePositionCore cprNL (e0.yz, e0.xz) (e1.yz, e1.xz) 0 1 (5199 / 100) (4375 / 1000)
+      = some (e1.rlat, e1.rlon) := by
+  decide +kernel
+
+/-- Sydney (southern hemisphere, second longitude quadrant), receiver longitude given as −209° -/
+example :
+    let e0 := Spec.cprEncode cprNL 90 0 (-339461 / 10000) (1511772 / 10000)
+    let e1 := Spec.cprEncode cprNL 90 1 (-339463 / 10000) (1511775 / 10000)
+    (-90 ≤ e0.rlat ∧ e0.rlat < 90) ∧ (-90 ≤ e1.rlat ∧ e1.rlat < 90) ∧
+    |e0.rlat - e1.rlat| < 3 / 4 / 59 ∧
+    |(-34 : ℚ) - e0.rlat| < 45 ∧ |(-34 : ℚ) - e1.rlat| < 45 ∧
+    cprNL e0.rlat = 49 ∧ cprNL e1.rlat = 49 ∧
+    |e0.rlon - e1.rlon - 90 * (0 : ℤ)| < 45 / ((cprNL e0.rlat : ℚ) * ((cprNL e0.rlat : ℚ) - 1)) ∧
+    CPR.circDist (-209) e0.rlon < 45 ∧ CPR.circDist (-209) e1.rlon < 45 ∧
+    surfacePositionCore cprNL (e0.yz, e0.xz) (e1.yz, e1.xz) 1 0 (-34) (-209)
+      = some (e0.rlat, e0.rlon) ∧
+    surfacePositionCore cprNL (e0.yz, e0.xz) (e1.yz, e1.xz) 0 1 (-34) (-209)
+      = some (e1.rlat, e1.rlon) := by
+  decide +kernel
 
 end PyModeS.C05
